@@ -1,7 +1,600 @@
 package main
 
-import "go/ast"
+import (
+	"fmt"
+	"go/ast"
+	"go/token"
+	"go/types"
+	"strings"
+)
 
-// w3 instruments accesses to state that can be shared between caller threads.
-// Filled in with the concurrency properties (C11/C12).
+// W3/W4: instrument accesses to memory that can be shared between caller
+// threads, and route synchronisation through the simulator.
+//
+// A location "can be shared" when its addressable expression is rooted in a
+// pointer dereference, a slice element, a package-level variable or a local
+// variable captured by a function literal. Purely local, uncaptured variables
+// (and fields / array elements of them) are skipped.
+//
+//   write  x = v        ->  simrt.W(unsafe.Pointer(&(x)), size, site); x = v
+//   read   E            ->  (*(*T)(simrt.RP(unsafe.Pointer(&(E)), size, site)))
+//   map    m[k] = v     ->  simrt.WM(m, site); m[k] = v        (also delete)
+//          m[k], len(m) ->  simrt.RM(m, site).(M)[k]
+//   sync   mu.Lock()    ->  simrt.MuLock(&(mu), site)           (Unlock, RLock, RUnlock)
+//          once.Do(f)   ->  simrt.OnceDo(&(once), f, site)
+
+var sizes = types.SizesFor("gc", "amd64")
+
+type w3ctx struct {
+	w        *weaver
+	fc       *fileCtx
+	fn       string
+	captured map[*types.Var]bool
+	seq      int
+}
+
+const stmtPrio = -1 << 30
+
 func (w *weaver) w3(fc *fileCtx, n ast.Node, fn string) {}
+
+// w3File instruments every function of a file.
+func (w *weaver) w3File(fc *fileCtx) {
+	c := &w3ctx{w: w, fc: fc, captured: map[*types.Var]bool{}}
+	// captured variables: used inside a function literal, declared outside it
+	ast.Inspect(fc.file, func(n ast.Node) bool {
+		lit, ok := n.(*ast.FuncLit)
+		if !ok {
+			return true
+		}
+		ast.Inspect(lit.Body, func(m ast.Node) bool {
+			id, ok := m.(*ast.Ident)
+			if !ok {
+				return true
+			}
+			v, ok := w.info.Uses[id].(*types.Var)
+			if !ok || v.IsField() || v.Parent() == w.pkg.Scope() || v.Parent() == types.Universe {
+				return true
+			}
+			if v.Pos() < lit.Pos() || v.Pos() > lit.End() {
+				c.captured[v] = true
+			}
+			return true
+		})
+		return true
+	})
+	for _, d := range fc.file.Decls {
+		fd, ok := d.(*ast.FuncDecl)
+		if !ok || fd.Body == nil {
+			continue
+		}
+		c.fn = fd.Name.Name
+		if fd.Recv != nil && len(fd.Recv.List) > 0 {
+			c.fn = recvName(fd.Recv.List[0].Type) + "." + fd.Name.Name
+		}
+		c.block(fd.Body)
+	}
+}
+
+func (c *w3ctx) off(p token.Pos) int { return c.fc.off(c.w.fset, p) }
+func (c *w3ctx) text(n ast.Node) string {
+	return string(c.fc.src[c.off(n.Pos()):c.off(n.End())])
+}
+
+func (c *w3ctx) typeOf(e ast.Expr) types.Type {
+	if tv, ok := c.w.info.Types[e]; ok {
+		return tv.Type
+	}
+	if id, ok := e.(*ast.Ident); ok {
+		if o := c.w.info.Uses[id]; o != nil {
+			return o.Type()
+		}
+		if o := c.w.info.Defs[id]; o != nil {
+			return o.Type()
+		}
+	}
+	return nil
+}
+
+func isPtr(t types.Type) bool {
+	if t == nil {
+		return false
+	}
+	_, ok := t.Underlying().(*types.Pointer)
+	return ok
+}
+
+func (c *w3ctx) varOf(id *ast.Ident) *types.Var {
+	if v, ok := c.w.info.Uses[id].(*types.Var); ok {
+		return v
+	}
+	if v, ok := c.w.info.Defs[id].(*types.Var); ok {
+		return v
+	}
+	return nil
+}
+
+// shared reports whether the location denoted by addressable expression e can
+// be reached by another thread.
+func (c *w3ctx) shared(e ast.Expr) bool {
+	switch x := e.(type) {
+	case *ast.ParenExpr:
+		return c.shared(x.X)
+	case *ast.Ident:
+		v := c.varOf(x)
+		if v == nil || v.IsField() {
+			return false
+		}
+		return v.Parent() == c.w.pkg.Scope() || c.captured[v]
+	case *ast.SelectorExpr:
+		sel := c.w.info.Selections[x]
+		if sel == nil || sel.Kind() != types.FieldVal {
+			return false
+		}
+		if sel.Indirect() || isPtr(c.typeOf(x.X)) {
+			return true
+		}
+		return c.shared(x.X)
+	case *ast.IndexExpr:
+		t := c.typeOf(x.X)
+		if t == nil {
+			return false
+		}
+		switch u := t.Underlying().(type) {
+		case *types.Slice:
+			return true
+		case *types.Pointer:
+			_ = u
+			return true
+		case *types.Array:
+			return c.shared(x.X)
+		}
+		return false
+	case *ast.StarExpr:
+		return true
+	}
+	return false
+}
+
+func (c *w3ctx) spellable(t types.Type) (string, bool) {
+	if t == nil {
+		return "", false
+	}
+	switch u := t.(type) {
+	case *types.Tuple:
+		return "", false
+	case *types.Basic:
+		if u.Info()&types.IsUntyped != 0 || u.Kind() == types.Invalid {
+			return "", false
+		}
+	}
+	s := c.w.typeStr(c.fc, t)
+	if strings.Contains(s, "invalid type") {
+		return "", false
+	}
+	return s, true
+}
+
+func (c *w3ctx) site(kind string, n ast.Node) int32 {
+	expr := c.text(n)
+	if len(expr) > 60 {
+		expr = expr[:60]
+	}
+	return c.w.newSite(c.fc, c.fn, kind, n.Pos(), expr)
+}
+
+// wrapRead wraps rvalue expression e so that reading it is recorded.
+func (c *w3ctx) wrapRead(e ast.Expr) {
+	tv, ok := c.w.info.Types[e]
+	if !ok || !tv.Addressable() || tv.IsType() {
+		if id, isID := e.(*ast.Ident); !(isID && c.varOf(id) != nil) {
+			return
+		}
+	}
+	t := c.typeOf(e)
+	ts, ok := c.spellable(t)
+	if !ok {
+		return
+	}
+	size := sizes.Sizeof(t)
+	id := c.site("read", e)
+	c.seq++
+	c.fc.unsafe = true
+	c.fc.insert(c.off(e.Pos()), fmt.Sprintf("(*(*%s)(simrt.RP(_simunsafe.Pointer(&(", ts), -c.seq)
+	c.fc.insert(c.off(e.End()), fmt.Sprintf(")), %d, %d)))", size, id), c.seq)
+}
+
+// wrapMapRead wraps a map-typed expression whose contents are read.
+func (c *w3ctx) wrapMapRead(m ast.Expr) {
+	t := c.typeOf(m)
+	ts, ok := c.spellable(t)
+	if !ok {
+		return
+	}
+	id := c.site("mapread", m)
+	c.seq++
+	c.fc.insert(c.off(m.Pos()), "simrt.RM(", -c.seq)
+	c.fc.insert(c.off(m.End()), fmt.Sprintf(", %d).(%s)", id, ts), c.seq)
+}
+
+const (
+	mRead = iota // rvalue: the location is read
+	mLoc         // only the location is needed (assignment target, &x, pointer-receiver call)
+)
+
+func (c *w3ctx) exprs(es []ast.Expr) {
+	for _, e := range es {
+		c.expr(e, mRead)
+	}
+}
+
+func (c *w3ctx) isType(e ast.Expr) bool {
+	tv, ok := c.w.info.Types[e]
+	return ok && tv.IsType()
+}
+
+func (c *w3ctx) expr(e ast.Expr, mode int) {
+	if e == nil || c.isType(e) {
+		return
+	}
+	switch x := e.(type) {
+	case *ast.ParenExpr:
+		c.expr(x.X, mode)
+	case *ast.Ident:
+		if mode == mRead && x.Name != "_" {
+			if v := c.varOf(x); v != nil && !v.IsField() && c.shared(x) {
+				c.wrapRead(x)
+			}
+		}
+	case *ast.SelectorExpr:
+		sel := c.w.info.Selections[x]
+		if sel == nil {
+			return // qualified identifier
+		}
+		switch sel.Kind() {
+		case types.FieldVal:
+			if isPtr(c.typeOf(x.X)) {
+				c.expr(x.X, mRead)
+			} else {
+				c.expr(x.X, mLoc)
+			}
+			if mode == mRead && c.shared(x) {
+				c.wrapRead(x)
+			}
+		default: // method value / call
+			recvPtr := false
+			if f, ok := sel.Obj().(*types.Func); ok {
+				if sig, ok := f.Type().(*types.Signature); ok && sig.Recv() != nil {
+					recvPtr = isPtr(sig.Recv().Type())
+				}
+			}
+			if isPtr(c.typeOf(x.X)) || !recvPtr {
+				c.expr(x.X, mRead)
+			} else {
+				c.expr(x.X, mLoc)
+			}
+		}
+	case *ast.IndexExpr:
+		t := c.typeOf(x.X)
+		if t == nil {
+			return
+		}
+		switch t.Underlying().(type) {
+		case *types.Map:
+			c.expr(x.X, mRead)
+			c.expr(x.Index, mRead)
+			if mode == mRead {
+				c.wrapMapRead(x.X)
+			}
+		case *types.Array:
+			c.expr(x.X, mLoc)
+			c.expr(x.Index, mRead)
+			if mode == mRead && c.shared(x) {
+				c.wrapRead(x)
+			}
+		case *types.Signature:
+			// generic instantiation: not used in this code base
+		default:
+			c.expr(x.X, mRead)
+			c.expr(x.Index, mRead)
+			if mode == mRead && c.shared(x) {
+				if _, isStr := t.Underlying().(*types.Basic); !isStr {
+					c.wrapRead(x)
+				}
+			}
+		}
+	case *ast.StarExpr:
+		c.expr(x.X, mRead)
+		if mode == mRead {
+			c.wrapRead(x)
+		}
+	case *ast.UnaryExpr:
+		if x.Op == token.AND {
+			c.expr(x.X, mLoc)
+		} else {
+			c.expr(x.X, mRead)
+		}
+	case *ast.BinaryExpr:
+		c.expr(x.X, mRead)
+		c.expr(x.Y, mRead)
+	case *ast.CallExpr:
+		c.call(x)
+	case *ast.CompositeLit:
+		t := c.typeOf(x)
+		isStruct := false
+		if t != nil {
+			u := t.Underlying()
+			if p, ok := u.(*types.Pointer); ok {
+				u = p.Elem().Underlying()
+			}
+			_, isStruct = u.(*types.Struct)
+		}
+		for _, el := range x.Elts {
+			if kv, ok := el.(*ast.KeyValueExpr); ok {
+				if !isStruct {
+					c.expr(kv.Key, mRead)
+				}
+				c.expr(kv.Value, mRead)
+			} else {
+				c.expr(el, mRead)
+			}
+		}
+	case *ast.FuncLit:
+		old := c.fn
+		c.fn = old + ".func"
+		c.block(x.Body)
+		c.fn = old
+	case *ast.TypeAssertExpr:
+		c.expr(x.X, mRead)
+	case *ast.SliceExpr:
+		t := c.typeOf(x.X)
+		if t != nil {
+			if _, arr := t.Underlying().(*types.Array); arr {
+				c.expr(x.X, mLoc)
+			} else {
+				c.expr(x.X, mRead)
+			}
+		}
+		c.expr(x.Low, mRead)
+		c.expr(x.High, mRead)
+		c.expr(x.Max, mRead)
+	case *ast.KeyValueExpr:
+		c.expr(x.Value, mRead)
+	}
+}
+
+func (c *w3ctx) syncKind(t types.Type) string {
+	if t == nil {
+		return ""
+	}
+	if p, ok := t.Underlying().(*types.Pointer); ok {
+		t = p.Elem()
+	}
+	n, ok := t.(*types.Named)
+	if !ok || n.Obj().Pkg() == nil || n.Obj().Pkg().Path() != "sync" {
+		return ""
+	}
+	return n.Obj().Name()
+}
+
+func (c *w3ctx) call(x *ast.CallExpr) {
+	if c.isType(x.Fun) { // conversion
+		c.exprs(x.Args)
+		return
+	}
+	// W4: sync primitives
+	if se, ok := x.Fun.(*ast.SelectorExpr); ok {
+		if sel := c.w.info.Selections[se]; sel != nil && sel.Kind() == types.MethodVal {
+			kind := c.syncKind(c.typeOf(se.X))
+			repl := ""
+			switch {
+			case (kind == "Mutex" || kind == "RWMutex") && se.Sel.Name == "Lock":
+				repl = "MuLock"
+			case (kind == "Mutex" || kind == "RWMutex") && se.Sel.Name == "Unlock":
+				repl = "MuUnlock"
+			case kind == "RWMutex" && se.Sel.Name == "RLock":
+				repl = "MuRLock"
+			case kind == "RWMutex" && se.Sel.Name == "RUnlock":
+				repl = "MuRUnlock"
+			case kind == "Once" && se.Sel.Name == "Do":
+				repl = "OnceDo"
+			}
+			if repl != "" {
+				recv := c.text(se.X)
+				if !isPtr(c.typeOf(se.X)) {
+					recv = "&(" + recv + ")"
+				}
+				id := c.site("sync", x)
+				if repl == "OnceDo" {
+					c.fc.replace(c.off(x.Pos()), c.off(x.Lparen)+1, fmt.Sprintf("simrt.OnceDo(%s, ", recv))
+					c.fc.insert(c.off(x.Rparen), fmt.Sprintf(", %d", id), 1<<29)
+					c.exprs(x.Args)
+				} else {
+					c.fc.replace(c.off(x.Pos()), c.off(x.Lparen)+1, fmt.Sprintf("simrt.%s(%s, %d", repl, recv, id))
+				}
+				return
+			}
+		}
+	}
+	if id, ok := x.Fun.(*ast.Ident); ok {
+		if _, isBuiltin := c.w.info.Uses[id].(*types.Builtin); isBuiltin {
+			switch id.Name {
+			case "len":
+				c.exprs(x.Args)
+				if len(x.Args) == 1 {
+					if t := c.typeOf(x.Args[0]); t != nil {
+						if _, isMap := t.Underlying().(*types.Map); isMap {
+							c.wrapMapRead(x.Args[0])
+						}
+					}
+				}
+			case "new", "make":
+				if len(x.Args) > 1 {
+					c.exprs(x.Args[1:])
+				}
+			default:
+				c.exprs(x.Args)
+			}
+			return
+		}
+	}
+	c.expr(x.Fun, mRead)
+	c.exprs(x.Args)
+}
+
+// lhs instruments an assignment target; returns statements to insert before
+// the assigning statement.
+func (c *w3ctx) lhs(e ast.Expr, tok token.Token) []string {
+	for {
+		p, ok := e.(*ast.ParenExpr)
+		if !ok {
+			break
+		}
+		e = p.X
+	}
+	if id, ok := e.(*ast.Ident); ok {
+		if id.Name == "_" {
+			return nil
+		}
+		if tok == token.DEFINE && c.w.info.Defs[id] != nil {
+			return nil
+		}
+	}
+	if ix, ok := e.(*ast.IndexExpr); ok {
+		if t := c.typeOf(ix.X); t != nil {
+			if _, isMap := t.Underlying().(*types.Map); isMap {
+				c.expr(ix.X, mRead)
+				c.expr(ix.Index, mRead)
+				id := c.site("mapwrite", ix.X)
+				return []string{fmt.Sprintf("simrt.WM(%s, %d);", c.text(ix.X), id)}
+			}
+		}
+	}
+	c.expr(e, mLoc)
+	if !c.shared(e) {
+		return nil
+	}
+	t := c.typeOf(e)
+	if t == nil {
+		return nil
+	}
+	id := c.site("write", e)
+	c.fc.unsafe = true
+	return []string{fmt.Sprintf("simrt.W(_simunsafe.Pointer(&(%s)), %d, %d);", c.text(e), sizes.Sizeof(t), id)}
+}
+
+func (c *w3ctx) block(b *ast.BlockStmt) {
+	if b == nil {
+		return
+	}
+	c.list(b.List)
+}
+
+func (c *w3ctx) list(ss []ast.Stmt) {
+	for _, s := range ss {
+		c.stmt(s, true)
+	}
+}
+
+func (c *w3ctx) emitBefore(s ast.Stmt, pre []string, inList bool) {
+	if len(pre) == 0 {
+		return
+	}
+	if !inList {
+		fatal("%s: write to shared state in a statement position the weaver cannot instrument (init/post/labeled)", c.w.fset.Position(s.Pos()))
+	}
+	c.fc.insert(c.off(s.Pos()), strings.Join(pre, " ")+" ", stmtPrio)
+}
+
+func (c *w3ctx) stmt(s ast.Stmt, inList bool) {
+	switch x := s.(type) {
+	case nil:
+	case *ast.AssignStmt:
+		var pre []string
+		for _, l := range x.Lhs {
+			pre = append(pre, c.lhs(l, x.Tok)...)
+		}
+		c.exprs(x.Rhs)
+		c.emitBefore(s, pre, inList)
+	case *ast.IncDecStmt:
+		c.emitBefore(s, c.lhs(x.X, token.ASSIGN), inList)
+	case *ast.ExprStmt:
+		if call, ok := x.X.(*ast.CallExpr); ok {
+			if id, ok := call.Fun.(*ast.Ident); ok && id.Name == "delete" && len(call.Args) == 2 {
+				if _, isBuiltin := c.w.info.Uses[id].(*types.Builtin); isBuiltin {
+					sid := c.site("mapwrite", call.Args[0])
+					c.emitBefore(s, []string{fmt.Sprintf("simrt.WM(%s, %d);", c.text(call.Args[0]), sid)}, inList)
+				}
+			}
+		}
+		c.expr(x.X, mRead)
+	case *ast.BlockStmt:
+		c.block(x)
+	case *ast.IfStmt:
+		c.stmt(x.Init, false)
+		c.expr(x.Cond, mRead)
+		c.block(x.Body)
+		c.stmt(x.Else, false)
+	case *ast.ForStmt:
+		c.stmt(x.Init, false)
+		c.expr(x.Cond, mRead)
+		c.stmt(x.Post, false)
+		c.block(x.Body)
+	case *ast.RangeStmt:
+		isMap := false
+		if t := c.typeOf(x.X); t != nil {
+			_, isMap = t.Underlying().(*types.Map)
+		}
+		if !isMap {
+			// map range headers are rewritten by W1 (simrt.Range records the map read)
+			c.expr(x.X, mRead)
+		}
+		if x.Tok == token.ASSIGN {
+			for _, e := range []ast.Expr{x.Key, x.Value} {
+				if e != nil && c.shared(e) {
+					fatal("%s: range assigns to shared state; not supported by the weaver", c.w.fset.Position(x.Pos()))
+				}
+			}
+		}
+		c.block(x.Body)
+	case *ast.SwitchStmt:
+		c.stmt(x.Init, false)
+		c.expr(x.Tag, mRead)
+		c.block(x.Body)
+	case *ast.TypeSwitchStmt:
+		c.stmt(x.Init, false)
+		switch a := x.Assign.(type) {
+		case *ast.AssignStmt:
+			c.exprs(a.Rhs)
+		case *ast.ExprStmt:
+			c.expr(a.X, mRead)
+		}
+		c.block(x.Body)
+	case *ast.CaseClause:
+		c.exprs(x.List)
+		c.list(x.Body)
+	case *ast.LabeledStmt:
+		c.stmt(x.Stmt, false)
+	case *ast.ReturnStmt:
+		c.exprs(x.Results)
+	case *ast.DeferStmt:
+		c.call(x.Call)
+	case *ast.GoStmt:
+		c.call(x.Call)
+	case *ast.DeclStmt:
+		if gd, ok := x.Decl.(*ast.GenDecl); ok {
+			for _, sp := range gd.Specs {
+				if vs, ok := sp.(*ast.ValueSpec); ok {
+					c.exprs(vs.Values)
+				}
+			}
+		}
+	case *ast.SendStmt:
+		c.expr(x.Chan, mRead)
+		c.expr(x.Value, mRead)
+	case *ast.SelectStmt:
+		c.block(x.Body)
+	case *ast.CommClause:
+		c.stmt(x.Comm, false)
+		c.list(x.Body)
+	}
+}
